@@ -127,23 +127,41 @@ def slice_insertions_st(draw, scenario, where="transforms", max_ins=3, **kw):
 
 
 # --------------------------------------------------------------------------- order / hide
+class Refs(list):
+    """Element references of the valid elements; `.missing` = references of the elements that
+    are present in the response but flagged missing (a client may list them all the same -
+    they must be ignored like stale ones)."""
+    missing = ()
+
+
 def element_refs(var, part=None):
     """Canonical element references (ids) of the valid elements of a dimension, as a
     transform would spell them: category ids, or sub-variable aliases for array items."""
     if var["type"] == "cat" or (var["type"] == "ca" and part == "cats"):
         if var.get("flavour") == "datetime":
-            return [c["evalue"] for c in var["cats"] if not c["missing"]]
+            out = Refs(c["evalue"] for c in var["cats"] if not c["missing"])
+            # a datetime element is addressed by value or by position id; the missing
+            # element has no value to be addressed by
+            out.missing = tuple(c["id"] for c in var["cats"] if c["missing"])
+            return out
         cats = var["cats"]
         if var.get("use_order_key"):
             by = {c["id"]: c for c in cats}
             cats = [by[i] for i in var["order"]]
-        return [c["id"] for c in cats if not c["missing"]]
-    return [it["alias"] for it in var["items"]]
+        out = Refs(c["id"] for c in cats if not c["missing"])
+        out.missing = tuple(c["id"] for c in var["cats"] if c["missing"])
+        return out
+    return Refs(it["alias"] for it in var["items"])
+
+
+def _stale_pool(refs):
+    miss = list(getattr(refs, "missing", ()))
+    return [STALE] + miss + [str(m) for m in miss[:1]]
 
 
 @st.composite
-def explicit_ids_st(draw, refs, stale=(STALE,)):
-    pool = list(refs) * 2 + list(stale)
+def explicit_ids_st(draw, refs, stale=None):
+    pool = list(refs) * 2 + list(_stale_pool(refs) if stale is None else stale)
     return draw(st.lists(st.sampled_from(pool), min_size=0, max_size=len(refs) + 2))
 
 
@@ -155,6 +173,9 @@ def hide_prune_st(draw, refs, p_hide=3, p_prune=3):
         hid = draw(st.lists(st.sampled_from(list(refs)), min_size=1, max_size=2, unique=True))
         for h in hid:
             elements[str(h)] = {"hide": True}
+        miss = list(getattr(refs, "missing", ()))
+        if miss and draw(st.integers(0, 3)) == 0:
+            elements[str(miss[0])] = {"hide": True}  # already absent: no visible effect
     prune = draw(st.integers(0, p_prune)) == 0
     return elements, prune
 
@@ -184,7 +205,7 @@ STRAND_MEASURES = ["base_unweighted", "base_weighted", "count_unweighted", "coun
 def fixed_st(draw, refs):
     if not refs or draw(st.integers(0, 2)) != 0:
         return None
-    pool = list(refs) * 3 + [STALE]
+    pool = list(refs) * 3 + _stale_pool(refs)
     fixed = {}
     if draw(st.booleans()):
         fixed["top"] = draw(st.lists(st.sampled_from(pool), min_size=1, max_size=2))
